@@ -26,10 +26,17 @@
 (* array and names, dst's old array leaks, and set_dimension zeroes the     *)
 (* entry without freeing the old name.                                      *)
 (*                                                                         *)
-(* Allocation ids are never reused while anything still points at them, so  *)
-(* a stale pointer stays distinguishable (dead cell).  The VIEW renames ids *)
-(* canonically (position of the first slot that holds the pointer), so the  *)
-(* state graph does not distinguish allocation orders.                      *)
+(* The heap is a sequence of cells; allocation ids are never reused and a    *)
+(* released cell stays (dead), so a stale pointer stays distinguishable.    *)
+(* The VIEW renames ids canonically (position of the first slot that holds  *)
+(* the pointer) and ignores dead cells nobody points at, so the state graph *)
+(* does not distinguish allocation orders.  `depth` (calls so far) is part  *)
+(* of the view: every call sequence of at most Depth calls is explored,     *)
+(* exactly, with any number of workers.  `err` records the first release /  *)
+(* access of a dead cell.  No RECURSIVE operators (loops over at most 3     *)
+(* dimensions / objects are unrolled) and no -coverage: TLC's coverage      *)
+(* pre-pass does not terminate on the nested LETs of this module; the check *)
+(* counts the exported transitions per API function instead.                *)
 (*                                                                         *)
 (* Caller strings (kind k):  0 = (NULL,0)  1 = ("",1)  2 = ("ab",3)          *)
 (*   3 = ("abcdefgh",9)  4 = ("xyz",3) not terminated  5 = ("ab",0)          *)
